@@ -541,7 +541,17 @@ def run(ctx):
 
 MANIFEST = {
     "category": "proof",
-    "technique": "Coq invariant proofs over a typed label-level transition system of pbkvs.tla + step-level differential correspondence with the real generated archetypes",
-    "text": "see notes/C14.md",
-    "level_note": "see notes/C14.md",
+    "technique": "Coq invariant proofs over a typed label-level transition system of pbkvs.tla (any number of replicas/clients/keys, crashes through mayFail) "
+                 "+ step-level differential correspondence with the real generated archetypes + implementation-side ConsistencyOK / linearizability oracles",
+    "text": ("Theorems in coq/Properties/C14.v, closed under the global context. PROVED OUTRIGHT: consistency_ok - the spec's ConsistencyOK, verbatim, in every "
+             "state of every execution of the typed model: any number of replicas, clients, keys, every interleaving and either/CHOOSE resolution, every sequence of "
+             "crash-stops at label boundaries (3850-line inductive invariant: version/content agreement, prefix knowledge in replica order, counting of failover-sync "
+             "tokens incl. stale ones, replication phase with dead backups); consistency_ok_failure_free (independent proof); lin_checker_complete. "
+             "REFUTED (witness by vm_compute, replayed on the real Go code on every run, known findings): assertion_free_refuted (4 replicas: stale SYNC_RESP after a "
+             "restarted failover sync fails the assertion of rcvSyncRespLoop) and pb_linearizable_refuted (a Put re-sent after the primary crashed is applied twice). "
+             "Full statements kept as Definitions: consistency_ok_statement (= the proved theorem), assertion_free_statement, pb_linearizable_statement. "
+             "No positive partial theorem for assertion freedom / linearizability yet."),
+    "level_note": ("Trusted: Coq kernel; the hand-written model, tied by running the REAL pbkvs.AReplica/AClient archetypes step by step under the real Run loop "
+                   "(harness/steplib gate FairnessCounter) and comparing the full spec state with the model's after every attempt; the spec-state resources that "
+                   "replace the deployment resources (mailboxes, FD, file system, leader election stub)."),
 }
